@@ -18,7 +18,7 @@ def wire_ok(b):
     if any(c < 0x20 for c in body):
         return "control byte inside the message"
     # syntactic validity is judged byte-wise (a string may carry bytes that are not UTF-8, as for Go's json.Valid)
-    v = strict_json(body.decode("latin-1").encode("utf-8"))
+    v = strict_json(body)
     if v is Ellipsis or not isinstance(v, dict):
         return "not a valid JSON object"
     return None
